@@ -26,23 +26,11 @@ def make_edits(edits):
 
 
 def run_edits(data, edits, author="Q7"):
-    """-> dict(applied, skipped, err, out_bytes, out_doc)"""
-    from adeu.redline.engine import RedlineEngine
+    """-> dict(applied, skipped, err, out_bytes, out_doc, fz, fz_ok); fz = per submitted edit, what the non-literal
+    matching stages returned in the raw / accepted view (parameters of the Lean model, see heur.py)"""
+    from . import heur
 
-    res = {"applied": None, "skipped": None, "err": None, "out_doc": None, "out_bytes": None}
-    try:
-        eng = RedlineEngine(io.BytesIO(data), author=author)
-        a, s = eng.apply_edits(make_edits(edits))
-        res["applied"], res["skipped"] = a, s
-        out = eng.save_to_stream().getvalue()
-        res["out_bytes"] = out
-        res["out_doc"] = ooxml.strip_volatile(ooxml.read_docx(out))
-    except Exception as e:
-        import traceback
-
-        res["err"] = f"{type(e).__name__}: {e}"
-        res["tb"] = traceback.format_exc()[-1200:]
-    return res
+    return heur.run_edits_recorded(data, edits, author=author)
 
 
 def run_actions(data, actions, author="Q7"):
